@@ -415,10 +415,10 @@ func (r *RecursiveDNSServer) unmarshal(b []byte) error {
 	//
 	// Make sure at least one server is present, and that the IPv6 addresses are
 	// the expected 16 byte length.
-	dividend := (int(b[1]) - 1) * 8 // ignore first 8 bytes for header and lifetime
-	if dividend%2 != 0 {
+	if (int(b[1])-1)%2 != 0 { // the length is 1 + 2 per server: anything else is not a whole number of addresses
 		return errRDNSSBadServer
 	}
+	dividend := (int(b[1]) - 1) * 8 // ignore first 8 bytes for header and lifetime
 
 	count := dividend / net.IPv6len
 	if count == 0 {
